@@ -156,6 +156,21 @@ def gen_plan(rng, family):
                     th.append(["submit", "value"])
             plan["threads"].append(th)
         plan["final"] = "await"
+    elif family == "idleshrink":                # C10: some workers idle-time-out BEFORE a shrinking resize; none may leave after it
+        plan["reusable"] = True
+        plan["timeout"] = 10
+        plan["workers"] = rng.choice([3, 4, 4, 5])
+        plan["freeze_worker_timeouts_at_resize"] = True
+        for _ in range(rng.randint(1, 3)):
+            main.append(["submit", rng.choice(["value", "value", "long"])])
+        main.append(["await_all"])
+        main.append(["pause"])                  # idle workers may time out here
+        if rng.random() < 0.5:
+            main.append(["submit", "value"])
+            main.append(["await_all"])
+        main.append(["resize", rng.randint(1, plan["workers"] - 1)])
+        main.append(["pause"])                  # everything that can still happen happens
+        plan["final"] = "await"
     elif family == "race":                      # C09: callers racing with identical arguments, the harness takes no lock
         plan["reusable"] = True
         plan["timeout"] = 10
@@ -277,6 +292,20 @@ def make_program(plan):
                 elif op == "await_all":
                     env.await_([f for _, f in env.futs.values()])
                 elif op == "resize":
+                    if plan.get("freeze_worker_timeouts_at_resize"):
+                        env.kern.timeout_allowed = lambda a: a.role != "worker"
+                        # is the pool at rest?  every live worker waits in call_queue.get and every exit has been reaped
+                        cur = S.re_._executor
+                        rl = getattr(getattr(getattr(cur, "_call_queue", None), "_rlock", None), "_semlock", None)
+                        rname = getattr(rl, "name", "?")
+                        idle = True
+                        for a in env.kern.actors:
+                            if a.role == "worker" and not a.done and a.proc.alive and a.pending is not None:
+                                op = str(a.pending[0])
+                                if not (op.startswith("pipe.poll") or op == f"sem.acquire {rname}"):
+                                    idle = False
+                        alive_now = sum(1 for p_ in env.worker_procs() if p_.alive)
+                        env.notes["at_rest_before_resize"] = bool(idle and cur is not None and len(dict.copy(cur._processes)) == alive_now)
                     env.notes.setdefault("resizes", []).append(act[1])
                     prev = S.re_._executor
                     started = prev is not None and prev._executor_manager_thread is not None
@@ -544,7 +573,7 @@ def analyze(plan, r):
         hang_props.append("C05")
     if fam in ("timeout",) or (plan["timeout"] and not kills):
         hang_props.append("C07")
-    if fam == "resize":
+    if fam in ("resize", "idleshrink"):
         hang_props += ["C10", "C09"]
     if fam == "reuse":
         hang_props += ["C09"]
@@ -681,6 +710,14 @@ def analyze(plan, r):
             if kept != min(len(before), want):
                 add(["C10"], "survivors-restarted", f"resize-kept[{kept}]-of-previous[{len(before)}]-for[{want}] ctx[{ctx}]",
                     f"before {before} after {pids}")
+    # 9f. idle time-outs before a shrinking resize, none after it: the pool must hold exactly the requested number of workers once
+    #     everything has settled (a sentinel too many would take a worker away after _resize returned)
+    if fam == "idleshrink" and ended and not kills and "last_resize" in notes and notes.get("at_rest_before_resize"):
+        want, pids, broken = notes["last_resize"][0], notes["last_resize"][1], notes["last_resize"][2]
+        alive_end = sorted(p.pid for p in env.worker_procs() if p.alive)
+        if not broken and len(alive_end) != want:
+            add(["C10"], "unstable-size", f"resize-size-not-stable want[{want}] at-return[{len(pids)}] settled[{len(alive_end)}] ctx[{ctx}]",
+                f"workers at return {pids}, after everything settled {alive_end}")
     # 9a. get_reusable_executor / _resize raised on a healthy pool
     if fam in ("resize", "reuse") and not kills and not fatal_kinds:
         for op, ename, msg in notes.get("api_errors", []):
